@@ -379,8 +379,11 @@ def su3_shutdown_release(ctx, rep):
                       "this arm empties the subscriber list without calling on_unsubscribe on the elements: subscribers still registered at shutdown are never released")
         # the release survives a poisoned list lock (a subscriber callback may have panicked under
         # it): the lock result is matched / recovered with into_inner, never unwrapped
+        rel_bodies = {b.path} | {s_.body.path for k_, s_ in clears} | {s_.body.path for k_, s_, l_ in unsub}
         for p in pe.paths:
             for e in p.calls():
+                if e.site is None or e.site.body.path not in rel_bodies:
+                    continue  # (an unwrap somewhere else on a long path, e.g. in the notify phase)
                 if e.ck in ("std::result::Result::unwrap", "std::result::Result::expect") and e.args and e.args[0][0] == "lockres" \
                         and any(st[0] == "field" and st[2] == A.f_subscribers for st in subterms(e.args[0])):
                     rep.bad(R, "shutdown-release-survives-poisoned-list-lock:" + short(b.path), ctx.where(b, e.bb),
